@@ -78,7 +78,7 @@ def plan_blocking(length):
                     if s.impl.socks[p]._transaction is None:
                         s.in_multi.discard(p)
                 elif k < 0.5:
-                    yield ('cmd', p, [rng.choice([b'rpush', b'lpush']), key] + [tok() for _ in range(rng.choice([1, 1, 2, 3]))])
+                    yield ('cmd', p, [rng.choice([b'rpush', b'lpush']), key] + [tok() if rng.random() < 0.85 else b'' for _ in range(rng.choice([1, 1, 2, 3]))])
                 elif k < 0.58:
                     yield ('cmd', p, [b'multi'])
                     s.in_multi.add(p)
